@@ -332,12 +332,12 @@ def r04f(ctx):
 
 
 def run(ctx):
-    r04a(ctx)
-    r04b(ctx)
-    r04c(ctx)
-    r04d(ctx)
-    r04e(ctx)
-    r04f(ctx)
+    ctx.guard(r04a)
+    ctx.guard(r04b)
+    ctx.guard(r04c)
+    ctx.guard(r04d)
+    ctx.guard(r04e)
+    ctx.guard(r04f)
 
 
 SELFTEST = {
